@@ -461,6 +461,19 @@ func (e *Exec) knownGlobal(name string, et types.Type) (Value, bool) {
 	case collPkg + ".ErrNotFound":
 		return errVal(errNotFound), true
 	}
+	const cc = "github.com/btcsuite/btcd/chaincfg."
+	if nn, ok := map[string]string{cc + "MainNetParams": "mainnet", cc + "TestNet3Params": "testnet3", cc + "SigNetParams": "signet", cc + "RegressionNetParams": "regtest", cc + "SimNetParams": "simnet"}[name]; ok {
+		v := e.zeroLenient(et)
+		if sv, ok := v.(*StructV); ok {
+			st := et.Underlying().(*types.Struct)
+			for i := 0; i < st.NumFields(); i++ {
+				if st.Field(i).Name() == "Name" {
+					sv.F[i] = StrV{S: nn}
+				}
+			}
+		}
+		return v, true
+	}
 	if strings.HasPrefix(name, collPkg+".") || strings.HasPrefix(name, sdkT+".") && (strings.HasSuffix(name, "Key") || strings.HasSuffix(name, "Value")) {
 		if _, isI := et.Underlying().(*types.Interface); isI {
 			return IfaceV{T: types.NewPointer(errDynType), V: OpaqueV{Kind: "codec", ID: name}}, true
